@@ -65,12 +65,16 @@ def formatString (ideal : Option Str) : FmtRes := formatStringWith bufferSize id
 def formatReturns (len : Nat) : Bool := decide (len ≤ intMax)
 
 /-! ### the printf subset used by the correspondence
-`%%`, `%[-][0][width]{d,ld,u,x}`, `%[-][width]{s,c,lc}` -/
+`%%`, `%[-][+][0][width|*]{d,ld,lld}`, `%[-][0][width|*]{u,zu,x,X,o}`, `%[-][width|*][.prec]s`, `%[-][width|*]{c,lc}`
+(`*` takes the width from an `int` argument, a negative one means `-` and its absolute value; round four added
+`+`, `*`, `.prec`, `lld`, `zu`, `X`, `o`) -/
 
 inductive FArg where
-  | int (i : Int)        -- `int` for %d
+  | int (i : Int)        -- `int` for %d and for a `*` width
   | long (i : Int)       -- `long` for %ld
-  | uns (n : Nat)        -- `unsigned` for %u and %x
+  | llong (i : Int)      -- `long long` for %lld
+  | uns (n : Nat)        -- `unsigned` for %u, %x, %X, %o
+  | size (n : Nat)       -- `std::size_t` for %zu
   | chr (code : Nat)     -- `char` for %c (1..255)
   | wchr (code : Nat)    -- `wint_t` for %lc (classic locale: codes >= 128 cannot be converted)
   | str (s : Str)        -- `const char*` for %s
@@ -88,15 +92,35 @@ def Ideal.prepend (pre : Str) : Ideal → Ideal
 
 def digitsOf : Str → Nat := fun s => s.foldl (fun a c => a * 10 + (c.toNat - '0'.toNat)) 0
 
-def padTo (w : Nat) (left zero : Bool) (body : Str) (neg : Bool) : Str :=
-  let len := body.length + (if neg then 1 else 0)
-  let sign : Str := if neg then ['-'] else []
+def padTo (w : Nat) (left zero : Bool) (body : Str) (sign : Str) : Str :=
+  let len := body.length + sign.length
   if len ≥ w then sign ++ body
   else if left then sign ++ body ++ List.replicate (w - len) ' '
   else if zero then sign ++ List.replicate (w - len) '0' ++ body
   else List.replicate (w - len) ' ' ++ sign ++ body
 
+/-- the sign of a signed conversion: '-' for negative values, '+' for the others under the `+` flag -/
+def signOf (plus : Bool) (i : Int) : Str := if i < 0 then ['-'] else if plus then ['+'] else []
+
 def hexDigits (n : Nat) : Str := (Nat.toDigits 16 n)
+
+/-- the field width: digits, or `*` = taken from the next (`int`) argument; -> (width, left-justify because the
+    `*` argument was negative, rest of the format, rest of the arguments) -/
+def widthOf (f : Str) (args : List FArg) : Option (Nat × Bool × Str × List FArg) :=
+  match f, args with
+  | '*' :: f', .int i :: as => some (i.natAbs, decide (i < 0), f', as)
+  | '*' :: _, _ => none
+  | _, _ =>
+    let wd := f.takeWhile Char.isDigit
+    some (digitsOf wd, false, f.drop wd.length, args)
+
+/-- the precision `.digits` -/
+def precOf (f : Str) : Option Nat × Str :=
+  match f with
+  | '.' :: f' =>
+    let pd := f'.takeWhile Char.isDigit
+    (some (digitsOf pd), f'.drop pd.length)
+  | _ => (none, f)
 
 def formatIdeal : Nat → Str → List FArg → Ideal
   | 0, _, _ => .outside
@@ -107,34 +131,45 @@ def formatIdeal : Nat → Str → List FArg → Ideal
     else match f with
       | '%' :: f' => (formatIdeal fuel f' args).prepend ['%']
       | _ =>
-        let left := f.head? = some '-'
-        let f1 := if left then f.drop 1 else f
-        let zero := f1.head? = some '0'
+        let left0 : Bool := f.head? == some '-'
+        let f1 := if left0 then f.drop 1 else f
+        let plus : Bool := f1.head? == some '+'
+        let f1 := if plus then f1.drop 1 else f1
+        let zero : Bool := f1.head? == some '0'
         let f2 := if zero then f1.drop 1 else f1
-        let wd := f2.takeWhile Char.isDigit
-        let f3 := f2.drop wd.length
-        let w := digitsOf wd
+        match widthOf f2 args with
+        | none => .outside
+        | some (w, negw, f3, args) =>
+        let left := left0 || negw
+        let (prec, f3) := precOf f3
         -- with '-' the '0' flag is ignored (C standard)
         let zero' := zero && !left
+        let signed (f4 : Str) (i : Int) (as : List FArg) : Ideal :=
+          if prec.isSome then .outside
+          else (formatIdeal fuel f4 as).prepend (padTo w left zero' (toString i.natAbs).toList (signOf plus i))
+        let unsigned (f4 : Str) (body : Str) (as : List FArg) : Ideal :=
+          if prec.isSome ∨ plus then .outside
+          else (formatIdeal fuel f4 as).prepend (padTo w left zero' body [])
         match f3, args with
-        | 'd' :: f4, .int i :: as =>
-          (formatIdeal fuel f4 as).prepend (padTo w left zero' (toString i.natAbs).toList (i < 0))
-        | 'l' :: 'd' :: f4, .long i :: as =>
-          (formatIdeal fuel f4 as).prepend (padTo w left zero' (toString i.natAbs).toList (i < 0))
-        | 'u' :: f4, .uns n :: as =>
-          (formatIdeal fuel f4 as).prepend (padTo w left zero' (toString n).toList false)
-        | 'x' :: f4, .uns n :: as =>
-          (formatIdeal fuel f4 as).prepend (padTo w left zero' (hexDigits n) false)
+        | 'd' :: f4, .int i :: as => signed f4 i as
+        | 'l' :: 'd' :: f4, .long i :: as => signed f4 i as
+        | 'l' :: 'l' :: 'd' :: f4, .llong i :: as => signed f4 i as
+        | 'u' :: f4, .uns n :: as => unsigned f4 (toString n).toList as
+        | 'z' :: 'u' :: f4, .size n :: as => unsigned f4 (toString n).toList as
+        | 'x' :: f4, .uns n :: as => unsigned f4 (hexDigits n) as
+        | 'X' :: f4, .uns n :: as => unsigned f4 ((hexDigits n).map Char.toUpper) as
+        | 'o' :: f4, .uns n :: as => unsigned f4 (Nat.toDigits 8 n) as
         | 's' :: f4, .str s :: as =>
-          if zero then .outside else (formatIdeal fuel f4 as).prepend (padTo w left false s false)
+          if zero ∨ plus then .outside
+          else (formatIdeal fuel f4 as).prepend (padTo w left false (match prec with | some n => s.take n | none => s) [])
         | 'c' :: f4, .chr code :: as =>
-          if zero ∨ code = 0 ∨ code > 255 then .outside
-          else (formatIdeal fuel f4 as).prepend (padTo w left false [Char.ofNat code] false)
+          if zero ∨ plus ∨ prec.isSome ∨ code = 0 ∨ code > 255 then .outside
+          else (formatIdeal fuel f4 as).prepend (padTo w left false [Char.ofNat code] [])
         | 'l' :: 'c' :: f4, .wchr code :: as =>
-          if zero ∨ code = 0 then .outside
+          if zero ∨ plus ∨ prec.isSome ∨ code = 0 then .outside
           else if code ≥ 128 then
             (match formatIdeal fuel f4 as with | .outside => .outside | _ => .convError)
-          else (formatIdeal fuel f4 as).prepend (padTo w left false [Char.ofNat code] false)
+          else (formatIdeal fuel f4 as).prepend (padTo w left false [Char.ofNat code] [])
         | _, _ => .outside
 
 /-! ## path.cc, character level -/
